@@ -12,6 +12,7 @@ CONSTANTS
   Delays <- SomeDelay
   Weights <- TimeOnly
   Surs = {0}
+  CUs <- BaseCU
   NoDst = FALSE
   OkSubsets = FALSE
   NeedConsistent = FALSE
